@@ -427,35 +427,142 @@ func TransportStress(seed int64, goroutines, iterations int) string {
 	return v.result()
 }
 
-// EventStress: read-only accessors of one freshly parsed event from several goroutines; the
-// first EventID() call of a v3+ event computes and caches the ID.
+// accessorSamples: one freshly parsable event text per (event class, kind). Classes: eventV1
+// (room versions 1-2), eventV2 (3-11), eventV3 (12: create event without room_id, whose room ID
+// is derived from its event ID, and ordinary events).
+func accessorSamples(round int) []struct{ Ver, Label, JSON string } {
+	v1ref := `[["$prev:example.org",{"sha256":"cHJldg"}]]`
+	common := fmt.Sprintf(`"sender":"@u:example.org","origin_server_ts":%d,"depth":7,"hashes":{"sha256":"aGFzaA"},"signatures":{},"unsigned":{"age":1}`, 1000+round)
+	v1 := func(typ, sk, content string) string {
+		return fmt.Sprintf(`{"event_id":"$e%d:example.org","type":%q,%s"room_id":"!r:example.org","prev_events":%s,"auth_events":%s,"content":%s,%s}`,
+			round, typ, sk, v1ref, v1ref, content, common)
+	}
+	v2 := func(typ, sk, content string) string {
+		return fmt.Sprintf(`{"type":%q,%s"room_id":"!r:example.org","prev_events":["$p1","$p2"],"auth_events":["$a1"],"content":%s,%s}`,
+			typ, sk, content, common)
+	}
+	v3 := func(typ, sk, room, content string) string {
+		return fmt.Sprintf(`{"type":%q,%s%s"prev_events":["$p1"],"auth_events":["$a1"],"content":%s,%s}`,
+			typ, sk, room, content, common)
+	}
+	room12 := `"room_id":"!31hneApxJ_1o-63DmFrpeqnkFfWppnzWso1JvH3ogLM",`
+	kinds := []struct{ label, typ, sk, content string }{
+		{"message", "m.room.message", ``, `{"body":"x","msgtype":"m.text"}`},
+		{"member", "m.room.member", `"state_key":"@u:example.org",`, `{"membership":"join"}`},
+		{"join_rules", "m.room.join_rules", `"state_key":"",`, `{"join_rule":"public"}`},
+		{"history_visibility", "m.room.history_visibility", `"state_key":"",`, `{"history_visibility":"shared"}`},
+		{"power_levels", "m.room.power_levels", `"state_key":"",`, `{"users":{"@u:example.org":100},"users_default":0}`},
+		{"redaction", "m.room.redaction", ``, `{"redacts":"$x"}`},
+		{"sticky", "m.room.message", ``, `{"body":"s"}`},
+	}
+	var out []struct{ Ver, Label, JSON string }
+	for _, k := range kinds {
+		out = append(out, struct{ Ver, Label, JSON string }{"1", "eventV1/" + k.label, v1(k.typ, k.sk, k.content)})
+		out = append(out, struct{ Ver, Label, JSON string }{"10", "eventV2/" + k.label, v2(k.typ, k.sk, k.content)})
+		out = append(out, struct{ Ver, Label, JSON string }{"12", "eventV3/" + k.label, v3(k.typ, k.sk, room12, k.content)})
+	}
+	out = append(out, struct{ Ver, Label, JSON string }{"1", "eventV1/create", v1("m.room.create", `"state_key":"",`, `{"creator":"@u:example.org"}`)})
+	out = append(out, struct{ Ver, Label, JSON string }{"11", "eventV2/create", v2("m.room.create", `"state_key":"",`, `{"room_version":"11"}`)})
+	out = append(out, struct{ Ver, Label, JSON string }{"12", "eventV3/create", v3("m.room.create", `"state_key":"",`, ``, `{"room_version":"12"}`)})
+	return out
+}
+
+// every read-only accessor of the PDU interface, rendered; start rotates the order so that the
+// first call of each accessor comes from a different goroutine
+func callAccessors(ev gomatrixserverlib.PDU, start int) []string {
+	now := time.Unix(2000, 0)
+	fns := []func() string{
+		func() string { return "EventID=" + ev.EventID() },
+		func() string {
+			if sk := ev.StateKey(); sk != nil {
+				return "StateKey=" + *sk
+			}
+			return "StateKey=nil"
+		},
+		func() string { return fmt.Sprint("StateKeyEquals=", ev.StateKeyEquals("")) },
+		func() string { return "Type=" + ev.Type() },
+		func() string { return "Content=" + string(ev.Content()) },
+		func() string { v, err := ev.JoinRule(); return fmt.Sprint("JoinRule=", v, err != nil) },
+		func() string { v, err := ev.HistoryVisibility(); return fmt.Sprint("HistoryVisibility=", v, err != nil) },
+		func() string { v, err := ev.Membership(); return fmt.Sprint("Membership=", v, err != nil) },
+		func() string {
+			v, err := ev.PowerLevels()
+			if err != nil || v == nil {
+				return "PowerLevels=err"
+			}
+			return fmt.Sprint("PowerLevels=", v.UsersDefault, len(v.Users))
+		},
+		func() string { return "Version=" + string(ev.Version()) },
+		func() string { return "RoomID=" + ev.RoomID().String() },
+		func() string { return "Redacts=" + ev.Redacts() },
+		func() string { return fmt.Sprint("Redacted=", ev.Redacted()) },
+		func() string { return fmt.Sprint("PrevEventIDs=", ev.PrevEventIDs()) },
+		func() string { return fmt.Sprint("OriginServerTS=", ev.OriginServerTS()) },
+		func() string { return "SenderID=" + string(ev.SenderID()) },
+		func() string { return "Unsigned=" + string(ev.Unsigned()) },
+		func() string { return fmt.Sprint("Depth=", ev.Depth()) },
+		func() string { return "JSON=" + string(ev.JSON()) },
+		func() string { return fmt.Sprint("AuthEventIDs=", ev.AuthEventIDs()) },
+		func() string { b, err := ev.ToHeaderedJSON(); return fmt.Sprint("ToHeaderedJSON=", string(b), err != nil) },
+		func() string { return fmt.Sprint("IsSticky=", ev.IsSticky(now, now)) },
+		func() string { return fmt.Sprint("StickyEndTime=", ev.StickyEndTime(now).Unix()) },
+	}
+	out := make([]string, len(fns))
+	for k := range fns {
+		i := (start + k) % len(fns)
+		out[i] = fns[i]()
+	}
+	return out
+}
+
+// EventStress: EVERY read-only accessor of the PDU interface, called for the first time from
+// several goroutines at once, on freshly parsed events of every event class (eventV1, eventV2,
+// eventV3 incl. the v12 create event) and kind. All goroutines must see the same values; under
+// the race detector any unsynchronised memoisation inside an accessor is reported.
+// (Redact and SetUnsignedField mutate; SetUnsigned and Sign copy the whole event: not accessors.)
 func EventStress(goroutines int) string {
 	var v violations
-	ver := gomatrixserverlib.MustGetRoomVersion(gomatrixserverlib.RoomVersionV10)
-	for round := 0; round < 50; round++ {
-		js := fmt.Sprintf(`{"type":"m.room.message","room_id":"!r:example.org","sender":"@u:example.org","origin_server_ts":%d,"depth":1,"prev_events":[],"auth_events":[],"content":{"body":"x"},"hashes":{"sha256":"x"},"signatures":{}}`, round)
-		ev, err := ver.NewEventFromTrustedJSON([]byte(js), false)
-		if err != nil {
-			return "violation: cannot parse the sample event: " + err.Error()
-		}
-		ids := make([]string, goroutines)
-		var wg sync.WaitGroup
-		for g := 0; g < goroutines; g++ {
-			wg.Add(1)
-			go func(g int) {
-				defer wg.Done()
-				_ = ev.Type()
-				_ = ev.RoomID()
-				_ = ev.Depth()
-				ids[g] = ev.EventID()
-			}(g)
-		}
-		wg.Wait()
-		for g := 1; g < goroutines; g++ {
-			if ids[g] != ids[0] {
-				v.add("EventID() gave %q and %q for one event", ids[0], ids[g])
+	parsed := 0
+	for round := 0; round < 12; round++ {
+		for _, smp := range accessorSamples(round) {
+			ver, err := gomatrixserverlib.GetRoomVersion(gomatrixserverlib.RoomVersion(smp.Ver))
+			if err != nil {
+				return "violation: no room version " + smp.Ver
+			}
+			ev, err := ver.NewEventFromTrustedJSON([]byte(smp.JSON), false)
+			if err != nil {
+				return "violation: cannot parse the " + smp.Label + " sample: " + err.Error()
+			}
+			parsed++
+			results := make([][]string, goroutines)
+			start := make(chan struct{})
+			var wg sync.WaitGroup
+			for g := 0; g < goroutines; g++ {
+				wg.Add(1)
+				go func(g int) {
+					defer wg.Done()
+					defer func() {
+						if r := recover(); r != nil {
+							v.add("%s: accessor panicked: %v", smp.Label, r)
+						}
+					}()
+					<-start
+					results[g] = callAccessors(ev, g*5+round)
+				}(g)
+			}
+			close(start)
+			wg.Wait()
+			for g := 1; g < goroutines; g++ {
+				for i := range results[0] {
+					if results[g] != nil && results[0] != nil && results[g][i] != results[0][i] {
+						v.add("%s: goroutines saw %q and %q", smp.Label, results[0][i], results[g][i])
+					}
+				}
 			}
 		}
+	}
+	if parsed == 0 {
+		return "violation: no samples"
 	}
 	return v.result()
 }
